@@ -11,6 +11,9 @@
 import MW.Base.Bytes
 namespace MW
 
+/-- ASCII text as bytes, from a character list (a `String` literal does not reduce in the kernel) -/
+def ascii (l : List Char) : Bytes := l.map (fun c => UInt8.ofNat c.toNat)
+
 namespace BE
 
 /-- `new(big.Int).SetBytes(b)` / `parse256`: big-endian value of a byte string. -/
